@@ -6,6 +6,7 @@ One output line per input line; see harness/cells_common.py for the producer and
   scenario grid <moore|vn|hex> <torus 0|1> <cap|-> <d1,d2,...>
   scenario net <directed 0|1> <cap|-> <n> [a-b ...]
   scenario vor <cap|-> <n> p:x,y ... t:a,b,c ...
+  scenario vor d <n> p:x,y ... t:a,b,c ... a:num/den ...   (default capacity_function; a: the exact cell areas, one per cell)
   new cell|fixed|g2d | set a c|- | moveto a c | moverel a key | move a Dir k | remove a
   tryrandom 0|1 | randempty d... | randcell d...      -> result | observation dump
   conns c | nbhd c r ic | nbprop c | mask c r ic | nbagents c r ic      -> result
@@ -140,6 +141,26 @@ def parseScenario : List String → Option (Option Space)
     let es ← edges.mapM parseEdge
     if es.all (fun (a, b) => a < n && b < n) then
       pure (some (netSpace d n es cap))
+    else none
+  | "vor" :: "d" :: n :: rest => do
+    -- the default `capacity_function`: capacities come from the cell areas
+    let n ← n.toNat?
+    let pts := rest.filter (·.startsWith "p:")
+    let ts := rest.filter (·.startsWith "t:")
+    let ss := rest.filter (·.startsWith "s:")
+    let ars := rest.filter (·.startsWith "a:")
+    if ss.length > 1 || !(ss.all fun t => ((t.drop 2).toString.toNat?).isSome) then none else
+    if pts.length != n || ars.length != n || pts.length + ts.length + ss.length + ars.length != rest.length then none else
+    let _ ← pts.mapM (fun p => parseCoord (p.drop 2).toString)
+    let tris ← ts.mapM (fun t => parseTri (t.drop 2).toString)
+    let areas ← ars.mapM (fun a => match (a.drop 2).toString.splitOn "/" with
+      | [x, y] => do
+        let x ← x.toNat?
+        let y ← y.toNat?
+        if y = 0 then none else pure (x, y)
+      | _ => none)
+    if tris.all (fun (a, b, c) => a < n && b < n && c < n) then
+      pure (some (vorSpaceAreas n tris areas))
     else none
   | "vor" :: cap :: n :: rest => do
     let cap ← parseOpt String.toNat? cap
